@@ -431,9 +431,10 @@ def mutate(rng, kind, d):
                     mutate(rng, 'attachment', rng.choice(d['attachments']))
             else:
                 names = [a['name'] for a in d['attachments']]
-                new = [n for n in ['att', 'att2'] if n not in names]
+                # 'a0' sorts before the others: definition order and name order differ
+                new = [n for n in ['att', 'att2', 'a0'] if n not in names]
                 if new:
-                    d['attachments'].append(base_attachment(new[0]))
+                    d['attachments'].append(base_attachment(rng.choice(new)))
         elif r < 0.9:
             if d['parent'] is None:
                 d['parent'] = base_parent()
